@@ -615,3 +615,92 @@ Proof. vm_compute. reflexivity. Qed.
 Example ex_discover_snapshot :
   discover N (fun _ => false) (fun u => u =? 10) false false ex_its = DOk ex_g1 1 10 OCachedFallback [1].
 Proof. vm_compute. reflexivity. Qed.
+
+(* ---------- UDP: the existing-session shortcut ---------- *)
+
+Lemma shortcut_same_peer : forall opens ss ip port s,
+  shortcut same_peer opens ss ip port = Some s ->
+  In s ss /\ us_ip s = ip /\ us_port s = port /\ opens s = true.
+Proof.
+  intros opens ss ip port s H. unfold shortcut in H. apply find_some in H. destruct H as [Hin Hb].
+  apply andb_true_iff in Hb. destruct Hb as [Hp Ho]. unfold same_peer in Hp.
+  apply andb_true_iff in Hp. destruct Hp as [H1 H2]. apply N.eqb_eq in H1, H2. auto.
+Qed.
+
+(* no session from exactly this socket address: discovery decides, whatever the ciphers of the
+   other sessions open (sessions of users with the same credential, from the same IP, ...) *)
+Lemma shortcut_other_sockets_irrelevant : forall opens ss ip port disc,
+  (forall s, In s ss -> us_ip s = ip -> us_port s <> port) ->
+  udp_attribute same_peer opens ss ip port disc = disc.
+Proof.
+  intros opens ss ip port disc H. unfold udp_attribute.
+  destruct (shortcut same_peer opens ss ip port) as [s|] eqn:Hs; [|reflexivity].
+  destruct (shortcut_same_peer _ _ _ _ _ Hs) as [Hin [H1 [H2 _]]]. exfalso. exact (H s Hin H1 H2).
+Qed.
+
+(* [D ip port] = what discovery answers for first segments sent from that socket (a UDP socket
+   belongs to one client, i.e. one user name and credential; by C07_cache_independent(_hinted)
+   the answer does not depend on the cache).  Invariant: every session was attributed D of its
+   own peer address. *)
+Definition sessions_ok (D : N -> N -> option N) (ss : list usession) : Prop :=
+  forall s, In s ss -> D (us_ip s) (us_port s) = Some (us_user s).
+
+Lemma udp_attribute_sound : forall D opens ss ip port,
+  sessions_ok D ss ->
+  udp_attribute same_peer opens ss ip port (D ip port) = D ip port.
+Proof.
+  intros D opens ss ip port I. unfold udp_attribute.
+  destruct (shortcut same_peer opens ss ip port) as [s|] eqn:Hs; [|reflexivity].
+  destruct (shortcut_same_peer _ _ _ _ _ Hs) as [Hin [H1 [H2 _]]]. rewrite <- (I s Hin), H1, H2. reflexivity.
+Qed.
+
+(* For every sequence of session openings, every family of "opens" predicates and every order
+   of establishment: each new session is attributed exactly what discovery answers for its
+   first segment — the shortcut never changes an attribution — and the invariant is kept. *)
+Theorem existing_session_shortcut_sound : forall D evs ss,
+  sessions_ok D ss ->
+  (forall e, In e evs -> ev_disc e = D (ev_ip e) (ev_port e)) ->
+  snd (udp_run same_peer ss evs) = map ev_disc evs /\ sessions_ok D (fst (udp_run same_peer ss evs)).
+Proof.
+  intros D. induction evs as [|e rest IH]; intros ss I He; cbn [udp_run map]; [split; [reflexivity|exact I]|].
+  assert (Ha : udp_attribute same_peer (ev_opens e) ss (ev_ip e) (ev_port e) (ev_disc e) = ev_disc e).
+  { rewrite (He e (or_introl eq_refl)). apply udp_attribute_sound. exact I. }
+  rewrite Ha.
+  set (ss' := match ev_disc e with
+              | Some u => ss ++ [{| us_ip := ev_ip e; us_port := ev_port e; us_user := u |}]
+              | None => ss end).
+  assert (I' : sessions_ok D ss').
+  { subst ss'. destruct (ev_disc e) as [u|] eqn:Hd; [|exact I].
+    intros s Hs. apply in_app_iff in Hs. destruct Hs as [Hs|[<-|[]]]; [exact (I s Hs)|].
+    cbn. rewrite <- (He e (or_introl eq_refl)). exact Hd. }
+  destruct (IH ss' I' (fun e' H' => He e' (or_intror H'))) as [E1 E2].
+  destruct (udp_run same_peer ss' rest) as [fin outs]. cbn [fst snd] in *. split; [f_equal; exact E1|exact E2].
+Qed.
+
+(* shared credentials: alice (1) and bob (2) have the same password, every session cipher opens
+   every datagram.  alice from 10.0.0.2:1000, then bob from 10.0.0.2:2000 (same IP, other
+   port), a second session of alice's client over its socket, bob from another IP. *)
+Definition ex_all_open (_ : usession) : bool := true.
+Definition ex_udp_events : list uevent :=
+  [ {| ev_ip := 10; ev_port := 1000; ev_disc := Some 1; ev_opens := ex_all_open |};
+    {| ev_ip := 10; ev_port := 2000; ev_disc := Some 2; ev_opens := ex_all_open |};
+    {| ev_ip := 10; ev_port := 1000; ev_disc := Some 1; ev_opens := ex_all_open |};
+    {| ev_ip := 11; ev_port := 3000; ev_disc := Some 2; ev_opens := ex_all_open |} ].
+
+Example ex_udp_shared_credential :
+  snd (udp_run same_peer [] ex_udp_events) = [Some 1; Some 2; Some 1; Some 2].
+Proof. vm_compute. reflexivity. Qed.
+
+(* the port is essential: with an address test that ignores it, bob's session from alice's host
+   is attributed to alice *)
+Definition ip_only_peer (ip port : N) (s : usession) : bool := us_ip s =? ip.
+
+Lemma shortcut_port_needed :
+  exists evs D, sessions_ok D [] /\ (forall e, In e evs -> ev_disc e = D (ev_ip e) (ev_port e)) /\
+    snd (udp_run ip_only_peer [] evs) <> map ev_disc evs.
+Proof.
+  exists ex_udp_events, (fun ip port => if port =? 1000 then Some 1 else Some 2).
+  split; [intros s []|]. split.
+  - intros e He. cbn in He. destruct He as [<-|[<-|[<-|[<-|[]]]]]; reflexivity.
+  - vm_compute. discriminate.
+Qed.
